@@ -26,12 +26,13 @@ EXPLANATION = (
     "every ordering of the range relative to the edges. Not decided: path independence across segment borders, idempotence "
     "and continuity over the whole Haigh plane.")
 EXPLANATION += (' R-C12-4 additionally requires both aggregation paths (with and without additional index levels) to use the verified membership predicate and no library binning. R-C12-5: the validated R-segment order reaches the distance sort of the segment transformer unchanged; the two unbounded segments tie in distance, so their processing order is the validated order.')
+EXPLANATION += (' R-C12-6: a local helper whose result is NaN-patched (.fillna) at one call site is patched or guarded by an explicit infinity test of its argument at every call site (belief-contradiction rule for the indeterminate form (1+R)/(1-R) at R = +-inf).')
 ASSUMPTIONS = ["pandas IntervalIndex.get_indexer_for maps interval values to their positions",
                "1 - R_goal + M (1 + R_goal) != 0 for admissible slopes"]
 
 
 def run(ctx):
-    for r in (_r1, _r2, _r3, _r4, _r5):
+    for r in (_r1, _r2, _r3, _r4, _r5, _r6):
         ctx.attempt(r)
 
 
@@ -140,6 +141,64 @@ def _r5(ctx):
     fills = [c for c in calls_in(d.node) if isinstance(c.func, ast.Attribute) and c.func.attr == "fillna"]
     if fills:
         ctx.holds(d, fills[0], "unbounded segments (mid = +-inf) both get the fill value: equal distance, order decided by the index order")
+
+
+def _r6(ctx):
+    """Indeterminate forms.  A local helper whose result is patched with .fillna(...) at one call site is believed by the
+    code itself to return NaN for some arguments ((1+R)/(1-R) at R = +-inf).  Every other call of the same helper must then
+    either be patched the same way or be guarded by an explicit test of its argument for infinity - an unguarded call makes
+    every distance NaN for the target R = -inf, and no segment is transformed."""
+    prog = ctx.prog
+    ctx.rule("R-C12-6", floor=1, what="calls of a helper that is NaN-patched at one site are patched or infinity-guarded at every site")
+    n = 0
+    for key, fi in sorted(prog.functions.items()):
+        if fi.module.name != MS:
+            continue
+        helpers = {x.name for x in fi.node.body if isinstance(x, ast.FunctionDef)}
+        if not helpers:
+            continue
+        calls = {}
+        for c in calls_in(fi.node):
+            if isinstance(c.func, ast.Name) and c.func.id in helpers:
+                # calls inside the helper definitions themselves do not count
+                p_ = c
+                inside = False
+                while p_ is not None and p_ is not fi.node:
+                    if isinstance(p_, ast.FunctionDef) and p_.name in helpers:
+                        inside = True
+                    p_ = getattr(p_, "_parent", None)
+                if not inside:
+                    calls.setdefault(c.func.id, []).append(c)
+        for h, cs in calls.items():
+            def patched(c):
+                par = getattr(c, "_parent", None)
+                return isinstance(par, ast.Attribute) and par.attr in ("fillna", "nan_to_num") or \
+                    (isinstance(par, ast.Call) and (call_name(par) or "") in ("np.nan_to_num",))
+
+            def guarded(c):
+                par = getattr(c, "_parent", None)
+                while par is not None and not isinstance(par, ast.stmt):
+                    if isinstance(par, ast.IfExp):
+                        t = norm_text(par.test)
+                        if ("inf" in t or "isfinite" in t) and c.args and norm_text(c.args[0]) in t:
+                            return True
+                    par = getattr(par, "_parent", None)
+                return False
+            if not any(patched(c) for c in cs):
+                continue
+            for c in cs:
+                n += 1
+                st = c
+                while not isinstance(st, ast.stmt):
+                    st = st._parent
+                if patched(c) or guarded(c):
+                    ctx.holds(fi, st, "%s: call %s is %s" % (fi.name, norm_text(c), "NaN-patched" if patched(c) else "guarded by an infinity test"))
+                else:
+                    ctx.violated(fi, st, "%s: %s is called without the NaN patch / infinity guard that protects its other call "
+                                 "site(s); for an infinite argument (target R = -inf) the result is NaN and every comparison "
+                                 "with it is False" % (fi.name, norm_text(c)), text="unguarded " + norm_text(c))
+    if n == 0:
+        raise AnalysisError("no NaN-patched helper found in the mean stress module (distance computation changed)")
 
 
 def _r1(ctx):
@@ -645,6 +704,15 @@ def variants():
                 return True
         return False
     out.append(witness("transform hands over the reversed index", MP, reversed_segments, "R-C12-5"))
+
+    def goal_unguarded(tree):
+        f = find_func(tree, "_SegmentTransformer._distance_from_R_goal")
+        for st in f.body:
+            if isinstance(st, ast.Assign) and isinstance(st.value, ast.IfExp):
+                st.value = st.value.orelse
+                return True
+        return False
+    out.append(witness("pseudo mean stress of the target computed without the -inf guard", MP, goal_unguarded, "R-C12-6"))
 
     # twins
     def shift_rewritten(tree):
